@@ -267,6 +267,8 @@ func execScript(w coraza.WAF, r *Req, script []Call) (obs []callObs, fired []Fir
 				}
 			case "p5":
 				tx.ProcessLogging()
+			case "close": // only generated by C07: the handle keeps being used after Close
+				_ = tx.Close()
 			}
 			o.Ret = intrOf(it)
 			o.Intr = intrOf(tx.Interruption())
